@@ -87,3 +87,20 @@ def expr_mentions_path(fn, e, path, exact=False):
             elif p[1] == path[1] and tuple(p[2:2 + len(path) - 2]) == tuple(path[2:]):
                 return True
     return False
+
+
+def resolve_local(fn, e, block, idx, depth=0):
+    """Follow a plain local through its single reaching definition (copies such
+    as `uint32_t n = hdr->payload_length;`)."""
+    e0 = strip_casts(e)
+    while e0 is not None and e0.get('op') == 'ref' and e0.get('rk') == 'local' and depth < 4:
+        defs, entry = reaching_defs(fn, e0['name'], block, idx)
+        if len(defs) != 1 or entry:
+            break
+        lhs, rhs, o = defs[0].store_parts()
+        if rhs is None or o != '=':
+            break
+        block, idx = defs[0].block, defs[0].idx
+        e0 = strip_casts(rhs)
+        depth += 1
+    return e0
